@@ -71,6 +71,7 @@ def build(repo, findings):
     f = src.item(r'^fn backslash_escape\(', fn).r1().r11().r17_cow()
     f.resub(r'(\w+)\.chars\(\)\.any\((\w+)\)', r'str_any(\1, \2)', 'R14', 's.chars().any(pred) -> str_any(s, pred) stub', count=None)
     f.resub(r'(\w+)\.starts_with\((needs_\w+)\)', r'str_first_is(\1, \2)', 'R14', 's.starts_with(pred) -> str_first_is(s, pred) stub', count=None)
+    f.resub(r'\b(\w+)\.bytes\(\)\.map\(char::from\)', r'str_bytes_as_chars(\1).into_iter()', 'R14', 'bytes().map(char::from) -> stub (each byte as a character of its own)', count=None)
     f.r12(fn, 0)
     f.sig(fn, ret='res', ensures=[
         C('C13 empty-value-is-two-quotes', "s@.len() == 0 ==> res@ == seq!['\\'', '\\'']"),
